@@ -131,7 +131,8 @@ Lemma legal_entry_nil {X} (x : X) (o : dobs) (with_alt : bool) :
   fst (legal_entry x o with_alt) = [] <->
   exists b, first_res o = Some (RId b) /\ length b = 16 /\ stable o with_alt = true.
 Proof.
-  unfold legal_entry. destruct (first_res o) as [[| |b]|]; simpl.
+  unfold legal_entry. destruct (first_res o) as [[| | |b]|]; simpl.
+  - split; [discriminate | intros (? & E & _); discriminate E].
   - split; [discriminate | intros (? & E & _); discriminate E].
   - split; [discriminate | intros (? & E & _); discriminate E].
   - split.
